@@ -212,9 +212,9 @@ func (g *specGen) decodeOps(t int, a int) []int {
 			g.emit(t, Op{K: opPick, A: l, B: p, N: i})
 			out = append(out, p)
 		}
-		if g.r.chance(4) {
+		if g.r.chance(3) {
 			b := g.newSlot()
-			g.emit(t, Op{K: opMarshalListS, A: l, B: b})
+			g.emit(t, Op{K: opMarshalListS, A: l, B: b, N: g.r.intn(6)})
 		}
 	case 3:
 		p := g.newSlot()
@@ -267,7 +267,7 @@ func (g *specGen) flow(p int) {
 	if g.r.chance(6) {
 		o := g.newObj(0, true, false)
 		b = g.newSlot()
-		g.emit(p, Op{K: opMarshalList, A: o, B: b})
+		g.emit(p, Op{K: opMarshalList, A: o, B: b, N: g.r.intn(6)})
 	} else {
 		var o int
 		if len(g.shared) > 0 && g.r.chance(4) {
